@@ -34,7 +34,7 @@ def main():
     try:
         demo = open(os.path.join(src, "demo_test.go")).read()
         pkg = re.search(r"^package (\w+)", demo, re.M).group(1)
-        pkgdir = {"forwarder": ".", "forwarder_test": ".", "martian": "internal/martian", "martian_test": "internal/martian"}.get(pkg)
+        pkgdir = os.environ.get("DEMO_DIR") or {"forwarder": ".", "forwarder_test": ".", "martian": "internal/martian", "martian_test": "internal/martian"}.get(pkg)
         if pkgdir is None:
             base = pkg[:-5] if pkg.endswith("_test") else pkg
             cands = []
